@@ -192,6 +192,35 @@ func (c *ColDiff) RearrangeBaseRow(row []string) []string {
 	return res
 }
 
+// LayerHasBaseLayout returns true if the given layer has exactly the base's
+// columns in the base's order. Only then does an equal row checksum mean that
+// the layer's row is identical to the base row: the checksum covers the cell
+// values in order but not the column names.
+func (c *ColDiff) LayerHasBaseLayout(layer int) bool {
+	if len(c.OtherIdx[layer]) != len(c.BaseIdx) {
+		return false
+	}
+	for k, v := range c.BaseIdx {
+		if u, ok := c.OtherIdx[layer][k]; !ok || u != v {
+			return false
+		}
+	}
+	return true
+}
+
+// LayersHaveSameLayout returns true if two layers have the same columns in the same order
+func (c *ColDiff) LayersHaveSameLayout(i, j int) bool {
+	if len(c.OtherIdx[i]) != len(c.OtherIdx[j]) {
+		return false
+	}
+	for k, v := range c.OtherIdx[i] {
+		if u, ok := c.OtherIdx[j][k]; !ok || u != v {
+			return false
+		}
+	}
+	return true
+}
+
 func (c *ColDiff) Swap(i, j int) {
 	u := uint32(i)
 	v := uint32(j)
